@@ -981,11 +981,12 @@ fn b_insert(d: Dialect) -> BoxedStrategy<InsertSpec> {
             };
             let action_where = if d == Dialect::Mysql { Just(None).boxed() } else { proptest::option::weighted(0.4, b_expr(d, 1)).boxed() };
             (0u8..3, source, proptest::option::weighted(0.35, (action, action_where)), b_returning(d)).prop_map(move |(table, source, oc, returning)| InsertSpec {
+            api: 0,
                 replace: false,
                 table,
                 columns: (1..=k as u8).collect(),
                 source,
-                on_conflict: oc.map(|(action, action_where)| ConflictSpec { targets: vec![5], target_where: None, action, action_where }),
+                on_conflict: oc.map(|(action, action_where)| ConflictSpec { targets: vec![5], target_where: None, action, action_where, api: 0 }),
                 returning,
                 with: None,
             })
@@ -1002,13 +1003,13 @@ fn b_update(d: Dialect) -> BoxedStrategy<UpdateSpec> {
         b_limit(),
         b_returning(d),
     )
-        .prop_map(|(table, sets, wheres, orders, limit, returning)| UpdateSpec { table, sets, from: vec![], wheres, orders, limit, returning, with: None })
+        .prop_map(|(table, sets, wheres, orders, limit, returning)| UpdateSpec { api: 0, table, sets, from: vec![], wheres, orders, limit, returning, with: None })
         .boxed()
 }
 
 fn b_delete(d: Dialect) -> BoxedStrategy<DeleteSpec> {
     (0u8..3, proptest::collection::vec(b_expr(d, 2), 0..3), proptest::collection::vec(b_order(d), 0..2), b_limit(), b_returning(d))
-        .prop_map(|(table, wheres, orders, limit, returning)| DeleteSpec { table, wheres, orders, limit, returning, with: None })
+        .prop_map(|(table, wheres, orders, limit, returning)| DeleteSpec { table, wheres, orders, limit, returning, with: None, api: 0 })
         .boxed()
 }
 
